@@ -231,7 +231,9 @@ ModelDrained == queue = <<>> /\ LwIdle /\ CwIdle /\ mode = "open" /\ \A i \in 1.
 
 TDump ==
     /\ IsEvent("Dump") /\ ~closed
-    /\ ModelDrained => (IF Ev.kind = "btree" THEN BtreeDumpOK(Ev) ELSE HashDumpOK(Ev))
+    \* (compared with TRUE so that TLC evaluates the predicate as a value: as an action conjunct every
+    \* witness of its existential quantifiers would become a successor state)
+    /\ (ModelDrained => (IF Ev.kind = "btree" THEN BtreeDumpOK(Ev) ELSE HashDumpOK(Ev))) = TRUE
     /\ Stutter /\ Advance /\ UNCHANGED closed
 
 ----------------------------------------------------------------------------
